@@ -449,3 +449,63 @@ SUBCHECKS = [
              examples={'quick': 40, 'thorough': 500}, shards={'quick': 2, 'thorough': 8},
              rule='non-trivial = fine grid strictly larger than the coarse one'),
 ]
+
+
+# ----------------------------------------------------------------------------
+# coverage-guided campaign (Atheris / libFuzzer) over the same strategies and oracles
+
+
+def _atheris_cases(tier):
+  runs = {'quick': 15000, 'thorough': 400000}[tier]
+  out = []
+  for target in ('flatten', 'pytree'):
+    r = runs if target == 'flatten' else runs // 30
+    for corpus in ('empty', 'seeded'):
+      out.append({'target': target, 'corpus': corpus, 'runs': r})
+  return out
+
+
+def run_atheris(case):
+  """One libFuzzer campaign; -seed derives from VERIF_SEED (pins the campaign only approximately)."""
+  import json, os, shutil, subprocess, sys, tempfile
+  here = os.path.dirname(os.path.dirname(os.path.dirname(os.path.abspath(__file__))))
+  work = os.path.join(here, '.work')
+  os.makedirs(work, exist_ok=True)
+  d = tempfile.mkdtemp(prefix='atheris-', dir=work)
+  try:
+    corpus = os.path.join(d, 'corpus')
+    os.makedirs(corpus)
+    if case['corpus'] == 'seeded':
+      # a few short byte strings; libFuzzer mutates them, Hypothesis decodes them into structured cases
+      for i, b in enumerate([b'\x00', b'\x01\x02\x03\x04', bytes(range(32)), b'\xff' * 16, b'ab&ab&' * 4]):
+        with open(os.path.join(corpus, f'seed{i}'), 'wb') as f:
+          f.write(b)
+    seed = int(os.environ.get('VERIF_SEED', '1') or '1') or 1
+    env = dict(os.environ)
+    cmd = [sys.executable, '-m', 'vf.fuzz.c19_fuzz', case['target'], d, corpus,
+           f'-runs={case["runs"]}', f'-seed={seed}', '-max_len=512', '-print_final_stats=1']
+    r = subprocess.run(cmd, cwd=here, env=env, capture_output=True, text=True, timeout=3000)
+    stats_path = os.path.join(d, 'stats.json')
+    stats = json.load(open(stats_path)) if os.path.exists(stats_path) else {}
+    out = Outcome(units=int(stats.get('valid_cases', 0)), nontrivial=stats.get('distinct_nontrivial', 0) >= 2,
+                  labels=[f"target={case['target']}", f"corpus={case['corpus']}",
+                          f"distinct_nontrivial_inputs~{10 ** len(str(stats.get('distinct_nontrivial', 0))) // 10}+"])
+    fail_path = os.path.join(d, 'failure.json')
+    if os.path.exists(fail_path):
+      f = json.load(open(fail_path))
+      sub = 'flatten_unflatten' if case['target'] == 'flatten' else 'pytree_restructure'
+      return out.fail(what='coverage-guided campaign found a failing case', detail=f['detail'],
+                      replay_as={'subcheck': sub, 'case': f['case']})
+    if r.returncode != 0 or not stats:
+      raise RuntimeError(f'atheris campaign died rc={r.returncode}: {r.stderr[-1500:]}')
+    return out
+  finally:
+    shutil.rmtree(d, ignore_errors=True)
+
+
+SUBCHECKS.append(
+    Subcheck('atheris_campaign', run_atheris, cases=_atheris_cases,
+             wall={'quick': 150.0, 'thorough': 2400.0}, shards={'quick': 4, 'thorough': 4},
+             rule='libFuzzer byte strings decoded by Hypothesis fuzz_one_input into the flatten / pytree cases; '
+                  'units = decoded valid cases; empty corpus and a small seeded corpus',
+             doc='coverage-guided search (dinosaur.pytree_utils instrumented) with the round-trip oracle inside the target'))
